@@ -249,15 +249,21 @@ def _field_equal(a, b) -> bool:
     return a == b
 
 
-def standard_instance(entry, pools, rng):
-    """An instance of a NumPyPrintable class with arguments of the kinds its printer expects."""
+def standard_instance(entry, pools, rng, compound: bool = False):
+    """An instance of a NumPyPrintable class with arguments of the kinds its printer expects;
+    `compound`: every argument is a compound expression (ArraySum of momenta, sums, negated sums,
+    quotients) — printers and string templates break on arguments that print as a sum."""
     import sympy as sp
 
     from ampform.kinematics.lorentz import ArraySize, ThreeMomentum
+    from ampform.sympy._array_expressions import ArraySum
 
     p = pools.momenta[0]
     x, y, z = sp.symbols("x y z", positive=True)
     scal = iter([x, y, z, x * y, x + z, y / 2, x, y, z, x, y, z])
+    if compound:
+        p = ArraySum(pools.momenta[0], pools.momenta[1])
+        scal = iter([x + y, -(x + z), x / (y + z), (x + y) * z, x - y / 2, -x, x + y, y - z, x + z, x + y, y + z, z + x])
     args = []
     for f in entry.sympy_fields:
         n = f.name.lower()
@@ -274,7 +280,7 @@ def standard_instance(entry, pools, rng):
         elif n in {"angular_momentum", "l"}:
             args.append(sp.Integer(rng.randint(0, 2)))
         elif n in {"beta", "angle"}:
-            args.append(x / (x + y))
+            args.append((x - y / 3) / (x + y) if compound else x / (x + y))
         else:
             args.append(next(scal))
     attrs = tuple(dom[0] for dom in entry.attr_domain)
@@ -325,12 +331,16 @@ def numpy_code_agrees(entry, pools, rng, n_events=6):  # noqa: C901, PLR0912, PL
     except Exception as e:  # noqa: BLE001
         return [{"class": "cannot instantiate a NumPyPrintable class with standard arguments", "cls": entry.key, "error": repr(e)}], 0, []
     subjects = [("instance", r)]
-    if entry.cls.__name__ in {"EuclideanNorm", "EuclideanNormSquared", "ThreeMomentum"} or True:
+    try:
+        subjects.append(("instance", standard_instance(entry, pools, rng, compound=True)))
+    except Exception as e:  # noqa: BLE001
+        fails.append({"class": "cannot instantiate a NumPyPrintable class with standard arguments", "cls": entry.key, "error": repr(e), "arguments": "compound"})
+    if label_ok(entry):
         # also inside arithmetic, as it occurs in kinematic variables
-        subjects.append(("instance**2 + 1", r**2 + 1 if getattr(r, "is_commutative", True) else r))
+        subjects.append(("instance**2 + 1", r**2 + 1))
     nprng = np.random.default_rng(rng.randrange(2**31))
     n = 0
-    for label, folded in subjects[: 2 if label_ok(entry) else 1]:
+    for label, folded in subjects:
         unfolded = folded.doit()
         free = sorted(folded.free_symbols | unfolded.free_symbols, key=str)
         arrays = sorted((a for a in folded.atoms(type(p)) | unfolded.atoms(type(p))), key=str)
@@ -403,7 +413,159 @@ def numpy_code_agrees(entry, pools, rng, n_events=6):  # noqa: C901, PLR0912, PL
 
 def label_ok(entry) -> bool:
     """array-of-matrices classes are not put inside scalar arithmetic."""
-    return entry.cls.__name__ in {"EuclideanNorm", "EuclideanNormSquared", "ThreeMomentum", "ArraySize"}
+    return entry.cls.__name__ in {"EuclideanNorm", "EuclideanNormSquared", "ThreeMomentum", "ArraySize", "HPrint"}
+
+
+def numbers_vs_symbols(entry, pools, rng, ctx, stats):  # noqa: C901
+    """HARDENING rule 1: called with exact numbers == symbolic result with the numbers substituted
+    (both branches of argument-inspecting `evaluate`/`__new__`: BlattWeisskopfSquared with integer L,
+    equal masses, ...). Scalar classes with implement_doit only; compared numerically at exact numbers."""
+    import sympy as sp
+
+    fails = []
+    if not (entry.implement_doit and pools.is_scalar_class(entry)) or not entry.sympy_fields:
+        return fails
+    syms = sp.symbols(f"n0:{len(entry.sympy_fields)}", positive=True)
+    for trial in range(2):
+        nums = []
+        for f in entry.sympy_fields:
+            name = f.name.lower()
+            if name in {"angular_momentum", "l"}:
+                nums.append(sp.Integer(rng.randint(0, 3)))
+            elif name == "s" or name.startswith("sigma"):
+                # above every threshold: below it sqrt(z) is imaginary and the symbolic Blatt-Weisskopf
+                # formula (|h_L(sqrt z)|^2, for real z) is not the continuation of the integer-L polynomial
+                nums.append(sp.Rational(rng.randint(60, 120), rng.choice([2, 3])))
+            elif name in {"mass0", "m0"}:
+                nums.append(sp.Rational(rng.randint(9, 12), 2))
+            else:
+                nums.append(sp.Rational(rng.choice([1, 2, 3, 4]), rng.choice([2, 3])))
+        if trial == 1 and len(nums) >= 3:
+            nums[2] = nums[1]  # numerically equal arguments (equal masses)
+        attrs = tuple(rng.choice([v for v in dom]) for dom in entry.attr_domain)
+        sub = dict(zip(syms, nums))
+        try:
+            direct = entry.build(*nums, attrs=attrs).doit()
+            folded_then = entry.build(*syms, attrs=attrs).xreplace(sub).doit()
+            unfolded_then = entry.build(*syms, attrs=attrs).doit().xreplace(sub).doit()
+            vals = [complex(sp.N(v, 25)) for v in (direct, folded_then, unfolded_then)]
+        except Exception:  # noqa: BLE001, S112  (symbolic L left in a sum limit, pole, ...)
+            continue
+        if any(v != v or abs(v) == float("inf") for v in vals):
+            continue
+        stats["numbers_vs_symbols"] = stats.get("numbers_vs_symbols", 0) + 1
+        scale = max(abs(vals[2]), 1e-300)
+        if abs(vals[0] - vals[2]) > 1e-9 * scale or abs(vals[1] - vals[2]) > 1e-9 * scale:
+            fails.append({"class": "numeric arguments != symbolic result with the numbers substituted", "cls": entry.key,
+                          "expr": sp.srepr(entry.build(*nums, attrs=attrs))[:800], "numbers": [str(n) for n in nums],
+                          "called_with_numbers": str(vals[0]), "substituted_then_unfolded": str(vals[1]), "unfolded_then_substituted": str(vals[2])})
+    return fails
+
+
+def complex_sqrt_numbers():
+    """`ComplexSqrt.__new__` evaluates on numbers: must equal the definition with the number substituted."""
+    import sympy as sp
+
+    from ampform.sympy.math import ComplexSqrt
+
+    x = sp.Symbol("x")
+    fails = []
+    for v in (sp.Integer(4), sp.Integer(-4), sp.Rational(9, 4), sp.Rational(-1, 4), sp.Integer(0), sp.Float(2.25), sp.Float(-2.25), 4, -1.0):
+        try:
+            a = ComplexSqrt(v)
+            b = ComplexSqrt(x).xreplace({x: sp.sympify(v)})
+            c = ComplexSqrt(x).get_definition().xreplace({x: sp.sympify(v)})
+            va, vb, vc = (complex(sp.N(t_)) for t_ in (a, b, c))
+        except Exception as e:  # noqa: BLE001
+            fails.append({"class": "numeric arguments != symbolic result with the numbers substituted", "cls": "ComplexSqrt", "numbers": [str(v)],
+                          "error": f"{type(e).__name__}: {e}"})
+            continue
+        want = complex(sp.N(sp.sqrt(sp.sympify(v))))
+        if max(abs(va - vc), abs(vb - vc), abs(vc - want)) > 1e-12:
+            fails.append({"class": "numeric arguments != symbolic result with the numbers substituted", "cls": "ComplexSqrt", "numbers": [str(v)],
+                          "ComplexSqrt(number)": str(va), "substituted": str(vb), "definition": str(vc), "principal root": str(want)})
+    return fails
+
+
+def decorator_options(entries):  # noqa: C901, PLR0912
+    """HARDENING rule 5: the decorator machinery on classes defined at run time with every option."""
+    import sympy as sp
+
+    by_name = {e.cls.__name__: e.cls for e in entries}
+    fails = []
+
+    def bad(what, **kw):
+        fails.append({"class": "decorator option not honoured", "what": what, **kw})
+
+    x, y, z = sp.symbols("x y z")
+    hfull, hopaque, hnc, hprint = (by_name.get(n) for n in ("HFull", "HOpaque", "HNonComm", "HPrint"))
+    if not all((hfull, hopaque, hnc, hprint)):
+        return fails
+    from tools.corr.C14 import harness_weight, harness_weight2
+
+    # assumptions: commutative is forced to True, other assumptions are set
+    if hnc(x, y).is_commutative is not True or hfull(x).is_commutative is not True:
+        bad("commutative must be forced to True", got=str(hnc(x, y).is_commutative))
+    if hnc(x, y).is_real is not True:
+        bad("assumption real=True not set", got=str(hnc(x, y).is_real))
+    # defaults, keywords, positional order with an attribute in the middle of the field list
+    a = hfull(x)
+    if (a.a, a.weight, a.b, a.tag) != (x, harness_weight, sp.Integer(2), None) or a.args != (x, sp.Integer(2)):
+        bad("defaults of omitted arguments", got=str((a.a, a.weight, a.b, a.tag, a.args)))
+    b = hfull(x, harness_weight2, y, "t")
+    c = hfull(a=x, b=y, tag="t", weight=harness_weight2)
+    d = hfull(x, harness_weight2, tag="t", b=y)
+    if not (b == c == d) or (b.weight, b.b, b.tag) != (harness_weight2, y, "t") or b.args != (x, y):
+        bad("positional vs keyword construction", got=str((b, c, d)))
+    if hfull(x, tag="t") == hfull(x) or hfull(x, harness_weight2) == hfull(x) or hfull(x, b=3) == hfull(x):
+        bad("instances that differ in one field compare equal")
+    if hfull(x, harness_weight, 2, None) != hfull(x) or hash(hfull(x, harness_weight, 2, None)) != hash(hfull(x)):
+        bad("defaults given explicitly differ from defaults omitted")
+    if hfull(x, b=y).doit() != (x + 2 * y) ** 2 + x or hfull(x, harness_weight2, y).doit() != (x * y - 1) ** 2 + x:
+        bad("doit does not use the attribute", got=str(hfull(x, b=y).doit()))
+    if hfull(x, b=y, evaluate=True) != (x + 2 * y) ** 2 + x:
+        bad("evaluate=True in the constructor", got=str(hfull(x, b=y, evaluate=True)))
+    if "counter" in {f.name for f in __import__("dataclasses").fields(hfull)}:
+        bad("ClassVar became a field")
+    if tuple(hfull.__slots__) != ("weight", "tag"):
+        bad("__slots__ are not the non-SymPy fields", got=str(hfull.__slots__))
+    # sympify: SymPy fields are sympified, attributes are not
+    e = hfull(1, b="z")
+    if e.args != (sp.Integer(1), z) or hopaque(x, tag=5).tag != 5:
+        bad("sympify flags", got=str(e.args))
+    for what, fn, exc in (("too many positional arguments", lambda: hfull(x, harness_weight, y, "t", 1), ValueError),
+                          ("missing constructor argument", lambda: hnc(x), ValueError),
+                          ("unsympifiable SymPy argument", lambda: hnc(x, object()), TypeError)):
+        try:
+            fn()
+            bad(what + " accepted")
+        except exc:
+            pass
+        except Exception as ex:  # noqa: BLE001
+            bad(what + f" raises {type(ex).__name__} instead of {exc.__name__}")
+    # implement_doit=False keeps the node folded (arguments are still unfolded)
+    o = hopaque(hfull(x), y)
+    if not isinstance(o.doit(), hopaque) or o.doit() != hopaque(hfull(x).doit(), y):
+        bad("implement_doit=False", got=str(o.doit()))
+    if hopaque(x).b != sp.Rational(1, 2) or hopaque(x).tag != "t":
+        bad("default values", got=str((hopaque(x).b, hopaque(x).tag)))
+    # latex from a string template and from a method, with compound arguments
+    try:
+        l1, l2 = sp.latex(hfull(x + y, b=-z)), sp.latex(hopaque(x - y, -(x + z)))
+        if "H\\left(" not in l1 or "x + y" not in l1 or not l2.startswith("O("):
+            bad("_latex_repr_", got=l1 + " | " + l2)
+    except Exception as ex:  # noqa: BLE001
+        bad(f"_latex_repr_ raises {type(ex).__name__}: {ex}")
+    # substitution reaches every field, attributes are carried over, noncommutative flag ignored in products
+    s = hfull(x, harness_weight2, y, "t").xreplace({x: z, y: 3})
+    if s != hfull(z, harness_weight2, 3, "t") or s.tag != "t" or s.weight is not harness_weight2:
+        bad("xreplace with an attribute in the middle of the field list", got=str(s))
+    s = hfull(x, harness_weight2, y, "t").subs({y: x, x: 1}, simultaneous=True)
+    if s != hfull(1, harness_weight2, x, "t"):
+        bad("simultaneous subs", got=str(s))
+    if hnc(x, y) * hnc(y, x) != hnc(y, x) * hnc(x, y):
+        bad("instances do not commute although commutative is forced")
+    return fails
 
 
 def complex_sqrt_code_agrees():
